@@ -32,6 +32,14 @@ INFO = {
  "C11-2": ("C11", "rekey generates a classic secret when the current secret is deactivated", "a hybridized attribute disabled, update_msk, then rekey of a policy covering it"),
  "C13-2": ("C13", "Dimension::write writes attributes sorted by id (hierarchy order lost)", "a hierarchy whose rank order differs from its id order, round-tripped"),
  "C14-2": ("C14", "ser::read_vec guard rewritten as prefix + len > available (overflow at len = 2^64-1)", "a length prefix replaced by 2^64-1"),
+ "C01-4": ("C01", "generate_associated_rights drops a DNF conjunction that is a strict sub-conjunction of another one", "an encryption policy like 'A || (A && B)' and a user key covering only the smaller conjunction"),
+ "C03-4": ("C03", "Dimension::add_attribute detects duplicates through Dict::insert on the partially rebuilt hierarchy", "adding an existing name that sits above the insertion point: Ok is returned and the existing attribute silently drops to a lower rank"),
+ "C04-4": ("C04", "refresh without old secrets keeps a whole chain whose front already is the master's newest secret", "rekey, refresh keep-old, then refresh without old secrets (no rekey in between)"),
+ "C05-4": ("C05", "Dict::remove off-by-one index shift (same patch as C03-1)", "two successive deletions in a hierarchy where the second target directly followed the first"),
+ "C06-4": ("C06", "RevisionMap::get_latest_mut returns the OLDEST revision (back_mut)", "a right with >= 2 revisions when its attribute is disabled and the master key updated"),
+ "C07-4": ("C07", "decaps truncates the trap vector to the user's tracing length before hashing and comparing", "an encapsulation whose trap vector was extended by a well-formed extra point (count bumped)"),
+ "C10-4": ("C10", "usk_keygen draws (and registers) the user id before the fallible right lookup", "a key generation that fails after policy resolution: a right of the structure not yet in the master key"),
+ "C11-4": ("C11", "update_msk calls drop_hybridization() without assigning the result", "the hint of an already keyed right changes from Hybridized to Classic"),
  "C08-3": ("C08", "refresh skips the integrity check when keep_old_rights is false", "a tampered key carrying a known id, refreshed without old secrets"),
  "C12-3": ("C12", "EncryptedHeader::decrypt returns empty metadata without running AES-GCM when the ciphertext is exactly nonce + tag", "present-but-empty metadata combined with different authentication data or an altered nonce / tag"),
  "C13-3": ("C13", "MasterSecretKey::read maps the activation flag 0 to true ('hardening' with a copy-pasted branch)", "a master key holding a disabled right, round-tripped, then rekey / prune (which rebuild the public key from the flags)"),
@@ -43,7 +51,7 @@ INFO = {
  "C07-2": ("C07", "Encapsulations::read accepts any flag value other than 1 as 'classic' (flag turned into a bool, error branch removed)", "a classic encapsulation whose flag byte is changed in bits 1..6: it deserializes to the same object and still decapsulates"),
 }
 logs = ""
-for f in ("/var/tmp/seedeval.txt", "/var/tmp/seedeval2.txt", "/var/tmp/seedeval3.txt", "/var/tmp/seedeval4.txt"):
+for f in ("/var/tmp/seedeval.txt", "/var/tmp/seedeval2.txt", "/var/tmp/seedeval3.txt", "/var/tmp/seedeval4.txt", "/var/tmp/seedeval5.txt"):
     if os.path.exists(f):
         logs += open(f).read()
 # split per section
@@ -54,7 +62,9 @@ for ln in logs.split("\n"):
     m = re.match(r"=== (\S+)", ln)
     if m:
         key = m.group(1)
-        if key.startswith("/tmp/mut3/"):
+        if key.startswith("/tmp/mut4/"):
+            cur = key.split("/")[-1] + "-4"
+        elif key.startswith("/tmp/mut3/"):
             cur = key.split("/")[-1] + "-3"
         elif key.startswith("/tmp/mut2/"):
             cur = key.split("/")[-1] + "-2"
@@ -66,7 +76,7 @@ for ln in logs.split("\n"):
     elif cur:
         sections[cur].append(ln)
 confirm = {}
-for f in ("/var/tmp/confirm.txt", "/var/tmp/confirm2.txt"):
+for f in ("/var/tmp/confirm.txt", "/var/tmp/confirm2.txt", "/var/tmp/confirm3.txt"):
     if os.path.exists(f):
         for ln in open(f):
             m = re.match(r"(C\d+(?:-\d)?) \| (.*)", ln)
